@@ -151,6 +151,7 @@ var pureIrrelevant = []string{
 	"(*github.com/cosmos/cosmos-sdk/types.EventManager).", "(github.com/cosmos/cosmos-sdk/types.EventManagerI).",
 	"(github.com/cosmos/cosmos-sdk/types.Event).", "(time.Duration).String", "(time.Time).String",
 	"google.golang.org/grpc/status.Errorf", "github.com/cosmos/cosmos-sdk/telemetry.",
+	"invoke cosmossdk.io/log.Logger.", "invoke github.com/cosmos/cosmos-sdk/types.EventManagerI.",
 }
 
 func (x *Exec) unknownCall(s *State, name string, args []*Val, resT types.Type, cont func(*State, *Val)) {
